@@ -5,7 +5,9 @@ use crate::wire;
 use serde_json::json;
 use std::process::{Command, Stdio};
 
-const FUZZ_DIR: &str = "/verif/fuzz";
+fn fuzz_dir() -> String {
+    format!("{}/fuzz", root())
+}
 
 /// golden inputs: one frame per opcode, small pipelines, the regress streams
 pub fn seeds(target: &str) -> Vec<Vec<u8>> {
@@ -56,7 +58,7 @@ pub fn seeds(target: &str) -> Vec<Vec<u8>> {
 pub fn campaign(ctx: &Ctx, acc: &Accum, target: &str, runs_per_worker: u64, workers: usize) -> Option<i32> {
     let t0 = std::time::Instant::now();
     let build = Command::new("cargo")
-        .args(["+nightly", "fuzz", "build", "--fuzz-dir", FUZZ_DIR, target])
+        .args(["+nightly", "fuzz", "build", "--fuzz-dir", &fuzz_dir(), target])
         .env("CARGO_NET_OFFLINE", "true")
         .stdout(Stdio::null())
         .stderr(Stdio::piped())
@@ -76,12 +78,12 @@ pub fn campaign(ctx: &Ctx, acc: &Accum, target: &str, runs_per_worker: u64, work
             return None;
         }
     }
-    let bin = format!("{}/target/x86_64-unknown-linux-gnu/release/{}", FUZZ_DIR, target);
-    let art = format!("{}/artifacts/{}/", FUZZ_DIR, target);
+    let bin = format!("{}/target/x86_64-unknown-linux-gnu/release/{}", fuzz_dir(), target);
+    let art = format!("{}/artifacts/{}/", fuzz_dir(), target);
     let _ = std::fs::create_dir_all(&art);
     let mut children = vec![];
     for w in 0..workers {
-        let corpus = format!("{}/corpus/{}-{}-{}", FUZZ_DIR, target, ctx.seed, w);
+        let corpus = format!("{}/corpus/{}-{}-{}", fuzz_dir(), target, ctx.seed, w);
         let _ = std::fs::remove_dir_all(&corpus);
         let _ = std::fs::create_dir_all(&corpus);
         for (i, s) in seeds(target).iter().enumerate() {
@@ -138,8 +140,8 @@ pub fn campaign(ctx: &Ctx, acc: &Accum, target: &str, runs_per_worker: u64, work
     acc.inner.lock().unwrap().phases.push(json!({"phase": format!("libfuzzer-{}", target), "runs": total_runs, "workers": workers,
         "coverage_counters": cov, "seeds": seeds(target).len(), "wall_s": t0.elapsed().as_secs_f64()}));
     if let Some((path, why)) = crash {
-        let dst = format!("{}/replays/{}-fuzz-{:016x}.bin", VERIF_ROOT, ctx.prop, hash_of(&path));
-        let _ = std::fs::create_dir_all(format!("{}/replays", VERIF_ROOT));
+        let dst = format!("{}/replays/{}-fuzz-{:016x}.bin", root(), ctx.prop, hash_of(&path));
+        let _ = std::fs::create_dir_all(format!("{}/replays", root()));
         let _ = std::fs::copy(&path, &dst);
         println!("--- libFuzzer target {} found a failing input ---\n{}", target, why);
         println!("VIOLATION property={} replay={}", ctx.prop, dst);
